@@ -199,7 +199,10 @@ def impl_holds(case):
     # documented = the class's own entries (they take precedence), then the __init__ docstring
     docd = dict((doc_ir or {}).get("params") or {})
     for n, p in base["params"].items():
-        docd[n] = dict(docd.get(n, {}), **{k: v for k, v in p.items() if v is not None})
+        # (a None-like class-attribute default is a gap, not documentation: it does not hide what the __init__ docstring says)
+        docd[n] = dict(docd.get(n, {}), **{k: v for k, v in p.items()
+                                           if v is not None and not (k == "default" and _is_none_like(v)
+                                                                     and "default" in docd.get(n, {}))})
     return check_params(ps, _ann_src(init), ir["params"], docd, only_order_among=True)
 
 
@@ -216,12 +219,12 @@ def gen_points(rng, n):
     while len(pts) < n:
         r = rng.random()
         if r < 0.8:
-            src, info = fam_parsesig.gen_def(rng, allow_vararg=False)
+            src, info = fam_parsesig.gen_def(rng, allow_vararg=False, receiver_names=0.08)
             if not fam_parsesig._ok_source(src):
                 continue
             pts.append({"kind": "function", "src": src, "tags": info["tags"]})
         else:
-            src, tags = fam_parsesig.gen_class(rng)
+            src, tags = fam_parsesig.gen_class(rng, receiver_names=0.08)
             if not fam_parsesig._ok_source(src) or "*args" in src:
                 continue
             pts.append({"kind": "class", "src": src, "tags": tags})
@@ -313,7 +316,8 @@ def oracle(rng, tier):
     return {
         "evaluations": len(pts),
         "distinct_nontrivial": len(seen),
-        "rule": "generated definitions (positional, keyword-only, **kwargs; self/cls methods; classes with __init__; "
+        "rule": "generated definitions (positional, keyword-only, **kwargs; self/cls methods; later parameters that are merely "
+                "called self/cls; classes with __init__; "
                 "annotations; defaults of literal/container/code/opaque kinds; ReST/Google/numpydoc docstrings documenting "
                 "all/some/none of the parameters in or out of order); non-trivial = distinct definition inside the guard "
                 "with >= 2 strata tags on which the property holds",
